@@ -732,6 +732,20 @@ func (d *kDB) Close() error {
 
 type kPlain struct{}
 
+// kHeld: a scoped disposable whose Close can be held
+type kHeld struct {
+	hold chan struct{}
+	at   chan struct{}
+}
+
+func (h *kHeld) Close() error {
+	if h.hold != nil {
+		h.at <- struct{}{}
+		<-h.hold
+	}
+	return nil
+}
+
 type kTx struct {
 	db  *kDB
 	log *oLog
@@ -741,7 +755,7 @@ func (t *kTx) Close() error { t.log.add("close tx"); return nil }
 
 func createProbe() ProbeReport {
 	rep := ProbeReport{}
-	for _, round := range []string{"initializer-closes-parent", "provider-close-overlaps-create"} {
+	for _, round := range []string{"initializer-closes-parent", "provider-close-overlaps-create", "scope-close-overlaps-create"} {
 		rep.Rounds++
 		if msg := createRound(round); msg != "" {
 			rep.Bad = append(rep.Bad, round+": "+msg)
@@ -772,6 +786,14 @@ func createRound(round string) (msg string) {
 	must(c.AddSingleton(func() *kDB { return db }))
 	must(c.AddScoped(func(d *kDB) *kTx { return &kTx{d, lg} }))
 	must(c.AddScoped(func() *kPlain { return &kPlain{} }))
+	var heldOnce *kHeld
+	must(c.AddScoped(func() *kHeld {
+		if h := heldOnce; h != nil {
+			heldOnce = nil
+			return h
+		}
+		return &kHeld{}
+	}))
 	must(c.AddScoped(func(s godi.Scope) {
 		if closeParent && parent != nil {
 			closeParent = false
@@ -793,6 +815,45 @@ func createRound(round string) (msg string) {
 		must(err)
 		closeParent = true
 		child, cerr = parent.CreateScope(context.Background()) // a context of its own: no watcher will reap it
+	case "scope-close-overlaps-create":
+		// the parent SCOPE is closed (and held inside the Close of something it owns) while a child's creation is held
+		// inside an initializer: the child is refused or closed with the parent, never adopted by a parent that is gone
+		parent, err = p.CreateScope(context.Background())
+		must(err)
+		held := &kHeld{hold: make(chan struct{}), at: make(chan struct{}, 1)}
+		heldOnce = held
+		_, err = godi.Resolve[*kHeld](parent)
+		must(err)
+		blockInit = true
+		created := make(chan struct{})
+		go func() {
+			child, cerr = parent.CreateScope(context.Background())
+			close(created)
+		}()
+		select {
+		case <-inInit:
+		case <-time.After(5 * time.Second):
+			return "CreateScope never reached the initializer"
+		}
+		closed := make(chan struct{})
+		go func() { _ = parent.Close(); close(closed) }()
+		select {
+		case <-held.at: // the parent's Close is inside the Close of its own instance
+		case <-time.After(5 * time.Second):
+			return "the parent's Close never reached its instance"
+		}
+		close(holdInit)
+		select {
+		case <-created:
+		case <-time.After(5 * time.Second):
+			return "CreateScope never returned"
+		}
+		close(held.hold)
+		select {
+		case <-closed:
+		case <-time.After(5 * time.Second):
+			return "the parent's Close never returned"
+		}
 	default:
 		db.hold, db.at = make(chan struct{}), make(chan struct{}, 1)
 		blockInit = true
